@@ -960,6 +960,8 @@ def oracle(run, deep):
     oracle_histories(run, deep)
     oracle_subclasses(run)
     oracle_yaql_eval(run)
+    oracle_options_objects(run, deep)
+    oracle_iface_routes(run)
     oracle_engines(run, deep)
     # O3: random host values of every constructor straight into the finaliser
     for _ in range(run.n(800, 15000) * (3 if deep else 1)):
@@ -1548,6 +1550,235 @@ def oracle_yaql_eval(run):
 
 
 # --------------------------------------------------------------------------
+# options-object histories: one options mapping handed to several factories / create / copy / engine(expr, options)
+# --------------------------------------------------------------------------
+T2L, S2L = "yaql.convertTuplesToLists", "yaql.convertSetsToLists"
+OPT_OPS = ["legacy_create", "create", "create_kw", "copy", "expr_options", "caller_mutates"]
+OPT_DOC = ["dict", [[["str", "a"], ["list", [["int", 1], ["tuple", [["int", 2], ["list", [["int", 3]]]]], ["set", [["int", 4]]]]]],
+                    [["str", "s"], ["set", [["int", 1]]]]]]
+
+
+def effective(opts_snapshot, base=None, legacy=False):
+    o = dict(base or {})
+    o.update(opts_snapshot)
+    if legacy:
+        o[T2L] = False
+    return bool(o.get(T2L, True)), bool(o.get(S2L, False))
+
+
+def options_history_check(content, holder, ops):
+    """content: the options the application asks for; holder: dict | frozendict | proxy (the ONE object handed around);
+    ops: OPT_OPS names.  Returns (what, details) for the first failure, else None."""
+    import types
+    from yaql import legacy
+    live = dict(content)                      # the application's own dict
+    obj = live if holder == "dict" else (utils.FrozenDict(live) if holder == "frozendict" else types.MappingProxyType(live))
+    base_opts = {S2L: True}
+    base = _factory.create(options=dict(base_opts))
+    made = []                                 # (engine or statement, expected (t2l, s2l), description)
+    info = {"kind": "options_history", "content": content, "holder": holder, "ops": list(ops),
+            "options": {"convertTuplesToLists": bool(content.get(T2L, True)), "convertSetsToLists": bool(content.get(S2L, False))}}
+
+    def judge_all(when):
+        for eng, stmt_of, want_opts, desc in made:
+            for expr in ("$", "[1, [2, [3]], $.s]"):
+                if desc.startswith("legacy") and expr != "$":
+                    continue
+                obs, exc, res = observe(lambda: stmt_of(expr).evaluate(data=build(OPT_DOC, {}), context=ctx()))
+                want = fresh_obs(expr, OPT_DOC, want_opts[0], want_opts[1], "std_child")
+                bad = census(res, *want_opts) if obs[0] == "val" else []
+                if bad or canon_obs(obs) != want:
+                    return ("an engine does not finalise according to the options it was given at creation",
+                            dict(info, engine=desc, checked=when, expression=expr, options_in_force_should_be=list(want_opts),
+                                 observed=repr(canon_obs(obs))[:500], required=repr(want)[:500], offending_nodes=bad[:6]))
+        return None
+
+    for n, op in enumerate(ops):
+        snap = dict(obj)
+        try:
+            if op == "legacy_create":
+                e = legacy.YaqlFactory().create(obj)
+                made.append((e, e, effective(snap, legacy=True), "legacy.YaqlFactory().create(options) #%d" % n))
+            elif op == "create":
+                e = yaql.YaqlFactory().create(obj)
+                made.append((e, e, effective(snap), "YaqlFactory().create(options) #%d" % n))
+            elif op == "create_kw":
+                e = _factory.create(options=obj)
+                made.append((e, e, effective(snap), "factory.create(options=options) #%d" % n))
+            elif op == "copy":
+                e = base.copy(obj)
+                made.append((e, e, effective(snap, base_opts), "engine.copy(options) #%d" % n))
+            elif op == "expr_options":
+                stmts = {x: base(x, obj) for x in ("$", "[1, [2, [3]], $.s]")}     # parsed NOW, with the options as they are now
+                made.append((base, stmts.__getitem__, effective(snap, base_opts), "engine(expr, options) #%d" % n))
+            elif op == "caller_mutates":          # the application changes ITS dict afterwards: engines keep what they were given
+                live[T2L] = not live.get(T2L, True)      # (a FrozenDict holder is a copy and does not follow)
+                live[S2L] = not live.get(S2L, False)
+                snap = dict(obj)
+        except Exception as ex:
+            return ("handing an options mapping to %s raised %s" % (op, type(ex).__name__),
+                    dict(info, failing_op=n, trace=traceback.format_exc()[-1200:]))
+        if dict(obj) != snap or list(obj) != list(snap):
+            return ("the caller's options mapping was modified by the library",
+                    dict(info, failing_op=n, op=op, before=snap, after=dict(obj),
+                         required="factories, create(), copy() and engine(expr, options) take a private copy of the options"))
+        bad = judge_all("after op %d (%s)" % (n, op))
+        if bad:
+            return bad
+    return None
+
+
+def oracle_options_objects(run, deep):
+    rng = run.rng
+    todo = []
+    for t2l in (None, True, False):
+        for s2l in (None, True, False):
+            c = {}
+            if t2l is not None:
+                c[T2L] = t2l
+            if s2l is not None:
+                c[S2L] = s2l
+            for ops in (["legacy_create", "create"], ["create", "legacy_create", "create_kw"], ["legacy_create", "copy", "expr_options"],
+                        ["create", "caller_mutates", "create", "legacy_create", "expr_options"]):
+                todo.append((c, "dict", ops))
+            todo.append((c, "frozendict", ["legacy_create", "create", "copy"]))
+            todo.append((c, "proxy", ["create", "legacy_create", "expr_options", "caller_mutates", "copy"]))
+    for _ in range(run.n(40, 800) * (3 if deep else 1)):
+        c = {}
+        if rng.random() < 0.7:
+            c[T2L] = rng.random() < 0.5
+        if rng.random() < 0.7:
+            c[S2L] = rng.random() < 0.5
+        if rng.random() < 0.3:
+            c[rng.choice(["yaql.limitIterators", "yaql.memoryQuota", "host.option"])] = 100000
+        todo.append((c, rng.choice(["dict", "dict", "frozendict", "proxy"]), [rng.choice(OPT_OPS) for _ in range(rng.randrange(2, 6))]))
+    seen = set()
+    for c, holder, ops in todo:
+        bad = options_history_check(c, holder, ops)
+        run.cov["evaluations"] += 2 * len(ops)
+        run.count("O:options-history-" + ("ok" if bad is None else "FAIL"))
+        if bad and bad[0] not in seen:
+            seen.add(bad[0])
+            run.fail("violation", bad[0], bad[1])
+
+
+# --------------------------------------------------------------------------
+# every YaqlInterface entry point, with and without a bound receiver
+# --------------------------------------------------------------------------
+_L1 = [1, (2, 3), "a", 1]
+_L2 = [[1, 2], [3], []]
+_L3 = [3, 1, 2]
+_D1 = {"a": [1, (2,)], "b": {"c": {1}}, 3: None}
+_S1, _S2 = {1, 2}, {2, "x"}
+# (name, 'm' method on a receiver | 'f' function, receiver, args, the same thing as an expression over $1 (receiver) $2 $3)
+IFACE_PROBES = [
+    ("toSet", "m", _L1, [], "$1.toSet()"), ("toSet", "m", _L3, [], "$1.toSet()"),
+    ("union", "m", _S1, [_S2], "$1.union($2)"), ("intersect", "m", _S1, [_S2], "$1.intersect($2)"),
+    ("difference", "m", _S1, [_S2], "$1.difference($2)"), ("symmetricDifference", "m", _S1, [_S2], "$1.symmetricDifference($2)"),
+    ("keys", "m", _D1, [], "$1.keys()"), ("values", "m", _D1, [], "$1.values()"), ("items", "m", _D1, [], "$1.items()"),
+    ("set", "m", _D1, ["k", (1, [2])], "$1.set($2, $3)"), ("delete", "m", _D1, ["a"], "$1.delete($2)"),
+    ("get", "m", _D1, ["b"], "$1.get($2)"), ("get", "m", _D1, ["a"], "$1.get($2)"),
+    ("toList", "m", _L1, [], "$1.toList()"), ("distinct", "m", _L1, [], "$1.distinct()"), ("reverse", "m", _L2, [], "$1.reverse()"),
+    ("zip", "m", _L3, [_L2], "$1.zip($2)"), ("flatten", "m", _L2, [], "$1.flatten()"), ("enumerate", "m", _L1, [], "$1.enumerate()"),
+    ("skip", "m", _L2, [1], "$1.skip($2)"), ("take", "m", _L2, [2], "$1.take($2)"), ("memorize", "m", _L2, [], "$1.memorize()"),
+    ("len", "m", _L1, [], "$1.len()"), ("first", "m", _L2, [], "$1.first()"), ("last", "m", _L1[:2], [], "$1.last()"),
+    ("splitAt", "m", _L3, [1], "$1.splitAt($2)"), ("insert", "m", _L3, [1, (9,)], "$1.insert($2, $3)"),
+    ("where", "m", _L3, [lambda i: i > 1], "$1.where($ > 1)"),
+    ("select", "m", _L3, [lambda i: (i, (i, {i}))], "$1.select([$, [$, set($)]])"),
+    ("select", "m", _L3, [lambda i: {"v": (i,)}], "$1.select({v => [$]})"),
+    ("orderBy", "m", _L3, [lambda i: i], "$1.orderBy($)"),
+    ("toDict", "m", _L3, [lambda t: t, lambda t: (t, [t])], "$1.toDict($, [$, [$]])"),
+    ("groupBy", "m", _L3, [lambda t: t > 1], "$1.groupBy($ > 1)"),
+    ("list", "f", None, [_L1, 5], "list($2, $3)"), ("list", "f", None, [_L2], "list($2)"),
+    ("set", "f", None, [1, "a", (2, 3)], "set($2, $3, $4)"), ("dict", "f", None, [[["a", [1, (2,)]], ["b", {1}]]], "dict($2)"),
+    ("range", "f", None, [3], "range($2)"), ("coalesce", "f", None, [_D1], "coalesce($2)"), ("coalesce", "f", None, [_S1], "coalesce($2)"),
+    ("toSet", "f", None, [_L3], "toSet($2)"), ("len", "f", None, [_L1], "len($2)"),
+]
+
+
+def iface_findings():
+    """what host code receives from every YaqlInterface route = what the equivalent expression returns (plain data)"""
+    from yaql.language import specs as S
+    out = []
+    for (t2l, s2l) in OPTS:
+        e = eng_for(t2l, s2l)
+        for name, kind, recv, args, expr in IFACE_PROBES:
+            vals = [recv] + list(args)
+            refc = ctx()
+            for i, v in enumerate(vals):
+                if not callable(v):
+                    refc["$%d" % (i + 1)] = utils.convert_input_data(v)
+            want = canon_obs(observe(lambda: e(expr).evaluate(context=refc))[0])
+
+            recv_y = utils.convert_input_data(recv)      # on(receiver) takes the receiver as it is: hand it a yaql value
+
+            def unbound(yi):
+                return getattr(yi.on(recv_y), name)(*args) if kind == "m" else getattr(yi, name)(*args)
+            routes = [("YaqlInterface(ctx, engine)" + (".on(r).m(...)" if kind == "m" else ".f(...)"),
+                       lambda: observe(lambda: unbound(yaql_interface.YaqlInterface(ctx(), e)))[0:3:2])]
+            rec = []
+
+            def host_call(action, expr_text, receiver=None):
+                c = ctx()
+
+                def host_f(yaql_interface):
+                    rec.append(observe(lambda: action(yaql_interface))[0:3:2])
+                    return 0
+
+                @S.method
+                def host_m(receiver, yaql_interface):
+                    rec.append(observe(lambda: action(yaql_interface))[0:3:2])
+                    return 0
+                c.register_function(host_f, name="hostF")
+                c.register_function(host_m, name="hostM")
+                c["$1"] = utils.convert_input_data(receiver)
+                del rec[:]
+                try:
+                    e(expr_text).evaluate(context=c)
+                except Exception as ex:
+                    return (("other", "the host function could not be called: %s" % type(ex).__name__), None)
+                return rec[0] if rec else (("other", "host function not reached"), None)
+            routes.append(("interface injected into a host FUNCTION", lambda: host_call(unbound, "hostF()")))
+            if kind == "m":
+                routes.append(("interface injected into a host METHOD, rebound with on(r)", lambda: host_call(unbound, "$1.hostM()", [0])))
+                routes.append(("interface injected into a host METHOD, call on the bound receiver",
+                               lambda: host_call(lambda yi: getattr(yi, name)(*args), "$1.hostM()", recv)))
+            if not any(callable(a) for a in args):
+                routes.append(("YaqlInterface(ctx, engine)(expression, args...)",
+                               lambda: observe(lambda: yaql_interface.YaqlInterface(ctx(), e)(expr, *vals))[0:3:2]))
+                routes.append(("interface of a host METHOD called with an expression",
+                               lambda: host_call(lambda yi: yi(expr, *vals), "$1.hostM()", [0])))
+            for rname, route in routes:
+                obs, res = route()
+                bad = census(res, t2l, s2l) if obs[0] == "val" else []
+                if obs[0] == "other" and obs[1].startswith("unprintable"):
+                    bad = census(res, t2l, s2l) or [("$", obs[1])]
+                if bad:
+                    out.append(("host code receives non-plain data from a YaqlInterface route: %s" % bad[0][1],
+                                {"route": rname, "probe": [name, kind, expr], "received": repr(res)[:400], "offending_nodes": bad[:6],
+                                 "options": {"convertTuplesToLists": t2l, "convertSetsToLists": s2l},
+                                 "required": "only dict, list, tuple iff convertTuplesToLists is off, set iff convertSetsToLists is off, scalars"}))
+                elif canon_obs(obs) != want:
+                    out.append(("a YaqlInterface route returns something else than the equivalent expression",
+                                {"route": rname, "probe": [name, kind, expr], "observed": repr(canon_obs(obs))[:500], "required": repr(want)[:500],
+                                 "options": {"convertTuplesToLists": t2l, "convertSetsToLists": s2l}}))
+    return out
+
+
+def oracle_iface_routes(run):
+    found = iface_findings()
+    run.cov["evaluations"] += 4 * 5 * len(IFACE_PROBES)
+    run.count("O:iface-routes-" + ("ok" if not found else "FAIL"))
+    seen = set()
+    for what, d in found:
+        key = (what, d["route"])
+        if key in seen or len(seen) >= 8:
+            continue
+        seen.add(key)
+        run.fail("violation", what, dict(d, kind="iface_route"))
+
+
+# --------------------------------------------------------------------------
 # histories: statement reuse across contexts, engines created and dropped in sequence
 # --------------------------------------------------------------------------
 CTX_KINDS = ["std", "std_child", "std_grandchild", "bare", "sandbox", "custom_fin"]
@@ -1816,6 +2047,11 @@ def replay(run, data):
         if obs[0] == "val" and census(res, t2l, s2l):
             return False
         return not run.coq_mismatches(LHEADER, "lcase", "lcase_ok", [lcase_term(t2l, s2l, d["limit"], tin, obs)])
+    if d.get("kind") == "options_history":
+        return options_history_check(d["content"], d["holder"], d["ops"]) is None
+    if d.get("kind") == "iface_route":
+        return not [f for f in iface_findings() if f[1]["probe"] == d["probe"] and f[1]["route"] == d["route"]
+                    and f[1]["options"] == d["options"]]
     if d.get("kind") == "yaql_eval":
         return not [f for f in yaql_eval_findings(soak=d.get("scenario") == "soak") if f[0] == d.get("scenario")]
     if d.get("kind") == "subclass":
